@@ -3,6 +3,11 @@
 import json, subprocess
 
 BUILT = {
+ "C05": dict(level="exploration",
+   technique="differential testing (registers on vs State.NoReg) of typed-grammar programs and multi-input sessions; oracle = identical per-input output, echo, error/no-error, panicked flag and final globals",
+   text="Typed-grammar programs (functions of up to 12 parameters of mixed types, recursion, closures, variadics, parameter mutation with = ++ --, counted loops nested up to 10 deep, all loop forms and exits, error/catch, containers) are evaluated whole or statement by statement on two fresh states, with and without registers, and every input's output, echo, error presence and the final globals are compared; two focused generators add sessions of up to 40 top-level loops each left in a drawn way, and functions of 0..12 parameters called with every mix of integer / non-integer arguments whose bodies mutate, print, loop over and capture the parameters. Four classes where the optimisation is observable by design are excluded by construction and reported as known findings.",
+   note="A defect present with and without registers is invisible here (C01 covers semantics). Inputs stopped by the 4 s safety deadline make the rest of the case inconclusive. Error wording is not compared.",
+   ref="DESIGN.md section 3, C05"),
  "C07": dict(level="exploration",
    technique="exhaustive operator/builtin/extension x operand-kind tables + wild grammar-based generation + token-level mutation of shipped examples + native fuzzing; oracle = repl.EvalOne never reports a panic other than the two documented guards, process stays alive",
    text="Every infix operator on every ordered pair of a 42-value operand pool (all kinds, boundary integers, NaN, empty/huge containers, functions, quotes), every prefix/postfix operator, builtin and left-hand-side form on every value, index/slice with all pairs of 16 boundary bounds on 13 targets, every registered extension with 0, 1 and 2 arguments from the pool exhaustively and 3 from a sub-pool, functions of 0..12 integer parameters and loops nested to depth 12 are evaluated in a session holding one variable of every kind; rapid adds wild programs from the syntactic grammar and token-level mutations of the shipped examples; thorough adds coverage-guided fuzzing. Absence of panics is a statement over operand kinds x operators x node shapes, which the tables enumerate.",
